@@ -102,6 +102,16 @@ InvC06 ==
 InvC06Prefix ==
     (pc \in {"collect", "done"}) => accL = FoldL(<<>>, ys, order, NRows(table))
 
+\* The reason behind order independence, stated compositionally: from ANY accumulator state reached so far, scattering two
+\* results of different keys or of disjoint rows commutes.  (Pairwise commutation plus induction on the number of
+\* transpositions gives order independence for any number of results, beyond the bound of the instance.)
+InvCommute ==
+    \A a, b \in 1..Len(ys) :
+        (a < b /\ (Key(ys[a]) # Key(ys[b]) \/ ys[a].subset \cap ys[b].subset = {} \/ ~ys[a].ok \/ ~ys[b].ok)) =>
+            LET n == NRows(table) IN
+            /\ ScatterL(ScatterL(accL, ys[a], n), ys[b], n) = ScatterL(ScatterL(accL, ys[b], n), ys[a], n)
+            /\ ScatterD(ScatterD(accD, ys[a], n), ys[b], n) = ScatterD(ScatterD(accD, ys[b], n), ys[a], n)
+
 \* C18: entries that cannot run drop out without disturbing the rest
 InvC18 ==
     (pc = "done" /\ DisjointYields(ys)) =>
